@@ -74,7 +74,7 @@ def model_check(ctx, cfg, timeout, coverage=False):
 
 def as_code_must_hang(ctx, cfg, expect):
     """The model of the pinned code (no step that returns for an empty key list) must violate the property in TLC."""
-    r = ctx.tlc("batch", "Batch", cfg=cfg + ".cfg", workers=2, timeout=300, count=False, heap="1g")
+    r = ctx.tlc("batch", "Batch", cfg=cfg + ".cfg", workers=2, timeout=900, count=False, heap="1g")
     if r.timed_out or r.error:
         incon("%s: TLC failed: %s" % (cfg, r.error or "timeout"))
     if r.violated != expect:
@@ -102,10 +102,10 @@ class SpecStream(threading.Thread):
             fine = ["MC_fine_q1", "MC_fine_q2"] if quick else \
                    ["MC_fine_q1", "MC_fine_q2", "MC_fine_t1", "MC_fine_t2", "MC_fine_t3", "MC_fine_t4"]
             for cfg in fine:
-                model_check(ctx, cfg, 300 if quick else 2400, coverage=(not quick and cfg == "MC_fine_t1"))
-            model_check(ctx, "MC_live_q" if quick else "MC_live_t", 300 if quick else 1800)
+                model_check(ctx, cfg, 1500 if quick else 3000, coverage=(not quick and cfg == "MC_fine_t1"))
+            model_check(ctx, "MC_live_q" if quick else "MC_live_t", 1500 if quick else 3000)
             for cfg in (["MC_coarse_q"] if quick else ["MC_coarse_t", "MC_coarse_t2", "MC_coarse_t3", "MC_coarse_t4"]):
-                model_check(ctx, cfg, 300 if quick else 2400)
+                model_check(ctx, cfg, 1500 if quick else 3000)
             if not quick:
                 as_code_must_hang(ctx, "MC_ascode_nohang", "NoHang")
         except BaseException as ex:   # re-raised in the main thread
@@ -187,8 +187,8 @@ def run(ctx):
     specs.start()
     try:
         # 3. spec -> code
-        call_path, n_call = generate(ctx, "MC_gen_call_q", 900)
-        hook_path, n_hook = generate(ctx, "MC_gen_hook_q", 900)
+        call_path, n_call = generate(ctx, "MC_gen_call_q", 1500)
+        hook_path, n_hook = generate(ctx, "MC_gen_hook_q", 1500)
         res = replay(ctx, [call_path, hook_path], n_call + n_hook, 1200, variants=1 if quick else 3, corrupt=corrupt,
                      real_every=4 if quick else 1)
         f1 = [m for m in res.get("mismatches") or [] if m.get("sig") == "empty-keys:never-returns"]
@@ -211,7 +211,7 @@ def run(ctx):
         ctx.extra["behaviours_grain_hook"] = n_hook
 
         # 4. code -> spec
-        res, ntr, nrej = race_and_validate(ctx, call_path, 100 if quick else 600, 900 if quick else 2400,
+        res, ntr, nrej = race_and_validate(ctx, call_path, 100 if quick else 600, 1500 if quick else 3000,
                                            corrupt=(3 if corrupt else 0))
         ctx.absorb(res, "race traces validated by BatchTrace.tla")
         ctx.extra["race_traces"] = ntr
